@@ -136,6 +136,8 @@ func (cfg *Config) paramExp(pe *syntax.ParamExp) (string, error) {
 				return "", err
 			}
 			str = join(elems)
+			// A list without elements counts as unset for ${foo[@]-word}.
+			set = len(elems) > 0
 		}
 	}
 	if callVarInd {
@@ -611,11 +613,12 @@ func (cfg *Config) varInd(vr Variable, idx syntax.ArithmExpr) (string, bool, err
 	case Associative:
 		switch lit := nodeLit(idx); lit {
 		case "@", "*":
+			// A list without elements counts as unset for ${foo[@]-word}.
 			strs := slices.Sorted(maps.Values(vr.Map))
 			if lit == "*" {
-				return cfg.ifsJoin(strs), vr.IsSet(), nil
+				return cfg.ifsJoin(strs), len(strs) > 0, nil
 			}
-			return strings.Join(strs, " "), vr.IsSet(), nil
+			return strings.Join(strs, " "), len(strs) > 0, nil
 		}
 		val, err := Literal(cfg, idx.(*syntax.Word))
 		if err != nil {
